@@ -1,3 +1,4 @@
+import BigtoolsModel.AtomsBytes
 import BigtoolsModel.AtomsRB
 import BigtoolsModel.CirBytes
 import BigtoolsModel.FiltersGen
@@ -161,3 +162,12 @@ theorem C10_source_block_fetch (z : BBI.Zlib) (ubs : Nat) (l x : List Nat) (off 
     (0 < ubs → BBI.Has l off (z.deflate x) → RB.fetch z ubs l ⟨off, (z.deflate x).length⟩ = some x) ∧
     (BBI.Has l off x → RB.fetch z 0 l ⟨off, x.length⟩ = some x) :=
   ⟨fun hu h => RB.fetch_compressed z ubs l x off hu hx h, fun h => RB.fetch_raw z l x off h⟩
+
+/-- **Tie to the source: the byte-by-byte decoders** (any well-formed file, either byte order). The readers assemble every field of an index item (leaf: 32 bytes, non-leaf: 24)
+    and of a bedGraph item (12 bytes) from explicitly listed bytes, once per byte order. The lists, regenerated from bbiread.rs and
+    bigwigread.rs on every run, are the consecutive ranges of the format — four 32-bit fields, then the 64-bit offset and size; start,
+    end, value — in both arms, each byte used exactly once: the layout the byte-level reader models decode. -/
+theorem C10_source_item_decoders_take_their_own_bytes :
+    Gen.bf_leaf = BF.bothArms BF.leafFields ∧ Gen.bf_nonleaf = BF.bothArms BF.nonLeafFields ∧
+    Gen.bf_bedgraph_item = BF.bothArms BF.bedGraphFields ∧ ((BF.layout 0 BF.leafFields).flatMap (·.2)) = List.range 32 :=
+  ⟨BF.gen_leaf_bytes, BF.gen_nonleaf_bytes, BF.gen_bedgraph_item_bytes, BF.leaf_arm_covers_the_item.1⟩
